@@ -37,6 +37,10 @@ func runC04(c *Ctx) {
 	adapterWritesOnError(c)
 	errorListOnce(c)
 	c02ArgPath(c)
+	// a failure inside a deferred group is counted on, and reported with, that group (C13)
+	fieldSetAgreement(c)
+	funcFieldsSet(c, pkgGraphql)
+	c13GroupIsolated(c)
 }
 
 // userCallKind classifies a call instruction in generated code as a call into user code.
@@ -320,9 +324,19 @@ func c04HandlerShape(c *Ctx) {
 					}
 				}
 			}
+			// the handler of a list element closure nulls the element's slot (a nil Marshaler left there panics when the list is written)
+			needElem := par.Parent() != nil && isListElemClosure(par)
+			resetElem := false
 			reset := false
 			for _, b := range fn.Blocks {
 				for _, in := range b.Instrs {
+					if st, ok := in.(*ssa.Store); ok && needElem {
+						if _, isIx := st.Addr.(*ssa.IndexAddr); isIx && recoveredNonNil(st) {
+							if g2, ok := loadGlobal(an.Strip(st.Val)); ok && g2.Name() == "Null" {
+								resetElem = true
+							}
+						}
+					}
 					if st, ok := in.(*ssa.Store); ok && needReset {
 						if fv, ok := st.Addr.(*ssa.FreeVar); ok && fv.Name() == res.At(0).Name() {
 							v := an.Strip(st.Val)
@@ -348,6 +362,8 @@ func c04HandlerShape(c *Ctx) {
 				bad = "Recover/Error are not confined to the r != nil edge: the recover hook runs without a panic"
 			case needReset && !reset:
 				bad = "the handler does not null the field's result: a half-built value is returned after a panic"
+			case needElem && !resetElem:
+				bad = "the handler of a list element's goroutine does not store graphql.Null into the element's slot: the slot stays a nil Marshaler and writing the list panics outside any handler"
 			}
 			c.R.Check(bad == "", key, c.pos(fn.Pos()), "Recover×1, "+map[bool]string{true: "handed to the caller through the named error result", false: "Error×1 on r != nil"}[nErr == 0]+map[bool]string{true: ", result nulled", false: ""}[needReset], bad)
 		}
@@ -583,7 +599,6 @@ func isListElemClosure(fn *ssa.Function) bool {
 	}
 	return false
 }
-
 
 // onlyCallsFramedClosure: every call of fn that may panic is a call of a function literal of the same parent whose first
 // may-panic call is preceded by a deferred recover.
